@@ -41,7 +41,21 @@ REAL_VS_STUB = {
 }
 
 
+LOCALES = ["cp1252", "ascii", "latin-1", "cp1252", "iso8859-15"]
+
+
+def with_locale(rng, fmt):
+    """environment seam: the locale encoding of the session process (what text-mode pipes to a format-command use when no encoding is named)"""
+    if fmt.get("kind") == "cmd" and rng.random() < 0.4:
+        fmt = dict(fmt, locale=rng.choice(LOCALES))
+    return fmt
+
+
 def draw_fmt(rng):
+    return with_locale(rng, _draw_fmt(rng))
+
+
+def _draw_fmt(rng):
     r = rng.random()
     if r < 0.45:
         return {"kind": "black"}
@@ -58,7 +72,7 @@ def draw_fmt(rng):
 
 def fmt_tag(fmt):
     if fmt["kind"] == "cmd":
-        return "cmd:" + fmt.get("stub", "black")
+        return "cmd:" + fmt.get("stub", "black") + ("@" + fmt["locale"] if fmt.get("locale") else "")
     return fmt["kind"]
 
 
